@@ -3517,7 +3517,14 @@ impl Instance {
         }
 
         Ok(Instance {
-            name: value.name.clone(),
+            // an instance without a name is called "Regular", as in Glyphs.app and glyphsLib
+            // (GSInstance's default); an empty name would leave fvar pointing at a name
+            // record that is dropped for being empty
+            name: if value.name.is_empty() {
+                "Regular".to_string()
+            } else {
+                value.name.clone()
+            },
             active,
             type_: value
                 .type_
